@@ -367,7 +367,7 @@ def c14(tier):
     except RuntimeError as e:
         res.broken = 'build failed: ' + str(e)[:2000]
         return V.finish('C14', tier, 'exploration', res, {'evaluations': 0, 'distinct_nontrivial': 0, 'rule': '', 'samples': []}, t0)
-    n = 200000 if tier == 'thorough' else 12000
+    n = 200000 if tier == 'thorough' else 40000
     shards = 16
     m = V.run_pbt_shards('C14', bins, n, 100, shards, tier)
     env = {'VERIF_TIER': tier, 'VERIF_OPEN_FINDINGS': V.open_findings_env()}
@@ -380,7 +380,7 @@ def c14(tier):
         seen.add(f['text'])
         V.confirm_and_report(res, 'C14', bins['replay'], f['text'], f['msg'], f['crash'], env)
     # cross-process poison differential on a frozen corpus
-    ncorp = 100000 if tier == 'thorough' else 1000
+    ncorp = 100000 if tier == 'thorough' else 4000
     cdir = os.path.join(V.WORK, 'c14-corpus-%d' % os.getpid())
     shutil.rmtree(cdir, ignore_errors=True); os.makedirs(cdir)
     nsh = 16 if tier == 'thorough' else 4
@@ -676,7 +676,7 @@ def c19(tier):
         return V.finish('C19', tier, 'exploration', res, {'evaluations': 0, 'distinct_nontrivial': 0, 'rule': '', 'samples': []}, t0)
     wd = os.path.join(V.WORK, 'c19-%d' % os.getpid())
     shutil.rmtree(wd, ignore_errors=True); os.makedirs(wd)
-    n = 50000 if tier == 'thorough' else 3000
+    n = 50000 if tier == 'thorough' else 8000
     procs = []
     for i, (gid, share) in enumerate((('C14', 0.45), ('C02', 0.35), ('C10', 0.15), ('C17', 0.05))):
         sd = os.path.join(wd, 'corpus-' + gid); os.makedirs(sd)
